@@ -256,17 +256,105 @@ func (g *gen) order(n int) string {
 }
 
 func (g *gen) level() (int, int) {
-	switch g.r.Intn(8) {
-	case 0:
-		return 1, 2
-	case 1:
-		return 2, 3
-	case 2:
-		return 1, 1
-	case 3:
-		return 3, 4
+	lv := [][2]int{{1, 3}, {1, 3}, {1, 3}, {1, 2}, {2, 3}, {3, 4}, {4, 5}, {5, 7}, {9, 10}, {1, 1}, {7, 10}, {2, 5}}
+	l := lv[g.r.Intn(len(lv))]
+	return l[0], l[1]
+}
+
+// genTrustBand: a chain (with or without validator churn) whose headers are signed by coalitions
+// holding more than 2/3 of their own set but a share of the previously trusted set that lies
+// around the client's configured trust level; the primary serves only a few heights, so the client
+// has to take skipping steps (no adjacent path on offer).
+func genTrustBand(r *rand.Rand) core.Case {
+	g := newGen(r)
+	n := 4 + r.Intn(7)
+	nv := 3 + r.Intn(8) // up to 10 validators
+	var set [][2]int
+	for _, id := range r.Perm(nKeys)[:nv] {
+		pw := 1
+		if r.Intn(3) == 0 {
+			pw = 1 + r.Intn(3)
+		}
+		set = append(set, [2]int{id, pw})
 	}
-	return 1, 3
+	churn := r.Intn(2) == 0
+	lv := [][2]int{{3, 4}, {4, 5}, {9, 10}, {1, 1}, {7, 10}, {5, 7}, {2, 3}, {1, 2}, {1, 3}}
+	l := lv[r.Intn(len(lv))]
+	c := &chainInfo{n: n, blk: make([]int, n+2), vs: make([]int, n+3), t: make([]int64, n+2), cid: 1}
+	sets := make([][][2]int, n+3)
+	p := set
+	for h := 1; h <= n+1; h++ {
+		sets[h] = append([][2]int{}, p...)
+		c.vs[h] = g.vs(append([][2]int{}, p...))
+		if churn && r.Intn(3) == 0 {
+			p = g.churn10(p)
+		}
+	}
+	var t int64
+	for h := 1; h <= n; h++ {
+		t += 500 + int64(r.Intn(1000))
+		c.t[h] = t
+		// coalition: add validators in random order until the share of the own set passes a
+		// threshold drawn around 2/3 .. trust level .. 1
+		own := sets[h]
+		want := []int{2*total(own)/3 + 1, total(own) * l[0] / l[1], total(own)*l[0]/l[1] + 1, total(own)}[r.Intn(4)]
+		var sign []int
+		for _, i := range r.Perm(len(own)) {
+			if tallyP(own, sign) >= want && 3*tallyP(own, sign) > 2*total(own) {
+				break
+			}
+			sign = append(sign, own[i][0])
+		}
+		sort.Ints(sign)
+		c.blk[h] = g.blk(spec{chain: 1, h: int64(h), t: t, vals: c.vs[h], next: c.vs[h+1], last: c.blk[h-1], basic: 1, commit: 1, sign: sign})
+	}
+	h0 := 1 + r.Intn(n-1)
+	// sparse provider: the trusted height, the target(s) and a few others
+	var served []int
+	for h := 1; h <= n; h++ {
+		if h == h0 || h == n || r.Intn(4) == 0 {
+			served = append(served, c.blk[h])
+		}
+	}
+	if r.Intn(4) == 0 {
+		served = blocksOf(c.blk, 1, n)
+	}
+	primary := g.prov(1, served, "")
+	w := g.prov(1, served, "")
+	seq := 0
+	if r.Intn(8) == 0 {
+		seq = 1
+	}
+	g.ops = append(g.ops, fmt.Sprintf("new chain=1 period=1000000000 h=%d hash=%d seq=%d num=%d den=%d drift=2 prune=0 primary=%d wit=%d order=%d,%d",
+		h0, c.blk[h0], seq, l[0], l[1], primary, w, primary, w))
+	g.ops = append(g.ops, fmt.Sprintf("verify h=%d now=%d order=%d,%d", n, c.t[n]+100, primary, w))
+	for k := 0; k < 2; k++ {
+		g.ops = append(g.ops, fmt.Sprintf("verify h=%d now=%d order=%d,%d", 1+r.Intn(n), c.t[n]+200, w, primary))
+	}
+	scenHist[fmt.Sprintf("trust-band:level=%d/%d,churn=%v", l[0], l[1], churn)]++
+	return core.Case{Kind: "trust-band", Ops: g.ops}
+}
+
+func (g *gen) churn10(p [][2]int) [][2]int {
+	q := append([][2]int{}, p...)
+	switch g.r.Intn(3) {
+	case 0:
+		id := g.r.Intn(nKeys)
+		for _, x := range q {
+			if x[0] == id {
+				return q
+			}
+		}
+		q = append(q, [2]int{id, 1})
+	case 1:
+		if len(q) > 2 {
+			i := g.r.Intn(len(q))
+			q = append(q[:i], q[i+1:]...)
+		}
+	case 2:
+		q[g.r.Intn(len(q))][1] = 1 + g.r.Intn(3)
+	}
+	return q
 }
 
 func (g *gen) newOp(cid int, period int64, h int, hash int, primary int, wits []int) string {
@@ -598,6 +686,9 @@ func generate(r *rand.Rand, tier string, emit func(core.Case)) {
 	genKnownShapes(r, emit)
 	for i := 0; i < nRandom; i++ {
 		emit(genRandom(r))
+	}
+	for i := 0; i < nRandom/3; i++ {
+		emit(genTrustBand(r))
 	}
 	for i := 0; i < nDet; i++ {
 		genDetector(r, emit)
